@@ -1,0 +1,29 @@
+//go:build verif
+
+package upstream
+
+import (
+	"net/http"
+	"time"
+
+	"github.com/IrineSistiana/mosproxy/internal/upstream/transport"
+)
+
+// VerifIdleTimeout reports the idle time-out of the connections of an upstream built by NewUpstream:
+// kind = "pipeline" | "reuse" | "http" | "" (not observable: quic-go owned), d = the time-out (0 = no limit).
+// For a udp:// upstream it is the time-out of the UDP socket.
+func VerifIdleTimeout(u Upstream) (kind string, d time.Duration) {
+	switch t := u.(type) {
+	case *udpWithFallback:
+		return "pipeline", t.u.VerifIdleTimeout()
+	case *transport.PipelineTransport:
+		return "pipeline", t.VerifIdleTimeout()
+	case *transport.ReuseConnTransport:
+		return "reuse", t.VerifIdleTimeout()
+	case *transport.DoHTransport:
+		if ht, ok := t.VerifRoundTripper().(*http.Transport); ok {
+			return "http", ht.IdleConnTimeout
+		}
+	}
+	return "", 0
+}
